@@ -13,6 +13,8 @@ pub const USERS: [&str; 4] = ["alice", "bob", "carol", "donor"];
 pub const DENOMS: [&str; 4] = ["uwhale", "uusdc", "uatom", "ubtc"];
 /// a token-factory style native denom (same bank semantics, different label / burn handling paths in the contracts)
 pub const FACTORY_DENOM: &str = "factory/migaloo1creatoraddressxyz/ufab";
+/// a token-factory denom whose last path segment is the name of an ordinary denom (it is NOT that denom)
+pub const LOOKALIKE_DENOM: &str = "factory/mallory/uatom";
 pub const RICH: u128 = u128::MAX / 4;
 
 pub fn token_contract() -> Box<dyn Contract<Empty>> {
@@ -65,6 +67,7 @@ pub fn new_app() -> App {
         for a in funded_accounts() {
             let mut coins: Vec<Coin> = DENOMS.iter().map(|d| coin(RICH, *d)).collect();
             coins.push(coin(RICH, FACTORY_DENOM));
+            coins.push(coin(RICH, LOOKALIKE_DENOM));
             coins.sort_by(|a, b| a.denom.cmp(&b.denom));
             router.bank.init_balance(storage, &Addr::unchecked(a), coins).unwrap();
         }
@@ -134,7 +137,7 @@ pub fn deploy_pair_ext(kinds: [bool; 2], decimals: [u8; 2], fees: PoolFee, pair_
     let mut infos = vec![];
     for (i, k) in kinds.iter().enumerate() {
         if *k {
-            let a = deploy_cw20(&mut app, cw20_code, if i == 0 { "TOKA" } else { "TOKB" }, decimals[i]);
+            let a = deploy_cw20(&mut app, cw20_code, if i == 0 { "TOKA" } else { "TOKB" }, decimals[i].min(18));   // (cw20-base refuses more than 18; the pair is told `decimals[i]` all the same)
             infos.push(token(&a));
         } else {
             infos.push(native(if fab && i == 1 { FACTORY_DENOM } else { DENOMS[i] }));
@@ -257,7 +260,7 @@ impl PairWorld {
     }
     /// the single-asset forms of the ledger queries (`asset_id: Some(..)`) against the whole-ledger forms
     pub fn ledger_queries_disagree(&self) -> Option<String> {
-        let (pend, burned) = (self.fees_query(false), self.burned_query());
+        let (pend, burned, alltime) = (self.fees_query(false), self.burned_query(), self.fees_query(true));
         for i in 0..2 {
             let id = match &self.assets[i] { AssetInfo::NativeToken { denom } => denom.clone(), AssetInfo::Token { contract_addr } => contract_addr.clone() };
             let p: Result<pair::ProtocolFeesResponse, _> = self.app.wrap().query_wasm_smart(&self.pair, &pair::QueryMsg::ProtocolFees { asset_id: Some(id.clone()), all_time: None });
@@ -266,6 +269,10 @@ impl PairWorld {
                       _ => return Some(format!("ProtocolFees{{asset_id: {}}} disagrees with the pending ledger", id)) }
             match b { Ok(r) if r.fees.len() == 1 && r.fees[0].amount.u128() == burned[i] && r.fees[0].info == self.assets[i] => {}
                       _ => return Some(format!("BurnedFees{{asset_id: {}}} disagrees with the burned ledger", id)) }
+            // asked for the all-time counter of one asset (the code answers with the whole all-time list): the asset's entry must be its all-time amount
+            let a: Result<pair::ProtocolFeesResponse, _> = self.app.wrap().query_wasm_smart(&self.pair, &pair::QueryMsg::ProtocolFees { asset_id: Some(id.clone()), all_time: Some(true) });
+            match a { Ok(r) if r.fees.iter().any(|f| f.info == self.assets[i]) && r.fees.iter().filter(|f| f.info == self.assets[i]).all(|f| f.amount.u128() == alltime[i]) => {}
+                      _ => return Some(format!("ProtocolFees{{asset_id: {}, all_time: true}} disagrees with the all-time ledger", id)) }
         }
         None
     }
